@@ -81,6 +81,9 @@ type Sched struct {
 
 	ptrSeq       map[any]int
 	unorderedPtr int
+
+	quiet  bool // no schedule/select deviations are offered (set-up phases)
+	events []string
 }
 
 func goid() int64 {
@@ -544,7 +547,7 @@ func Select(hasDefault bool, cs ...Case) int {
 		}
 	}
 	start := 0
-	if len(cand) > 1 {
+	if len(cand) > 1 && !s.quiet {
 		start = s.ch.Choose("select", len(cand), 0)
 	}
 	for k := 0; k < len(cand); k++ {
@@ -574,6 +577,42 @@ func Choose(kind string, n int, cost int) int {
 	}
 	Point()
 	return s.ch.Choose(kind, n, cost)
+}
+
+// Quiet switches schedule exploration off (true) or on (false): while quiet the
+// default schedule is followed and no choice points are recorded.  Harnesses use
+// it for set-up phases (handshakes) that are not the subject of a scenario.
+func Quiet(q bool) {
+	if s := cur.Load(); s != nil {
+		Point()
+		s.mu.Lock()
+		s.quiet = q
+		s.mu.Unlock()
+	}
+}
+
+// Event appends to the execution's global event sequence and returns its index.
+func Event(format string, a ...any) int {
+	s := cur.Load()
+	if s == nil {
+		return -1
+	}
+	s.mu.Lock()
+	defer s.mu.Unlock()
+	s.events = append(s.events, fmt.Sprintf(format, a...))
+	s.log = append(s.log, "ev: "+s.events[len(s.events)-1])
+	return len(s.events) - 1
+}
+
+// Events returns a copy of the global event sequence.
+func Events() []string {
+	s := cur.Load()
+	if s == nil {
+		return nil
+	}
+	s.mu.Lock()
+	defer s.mu.Unlock()
+	return append([]string{}, s.events...)
 }
 
 // Logf appends to the execution's observation log.
@@ -729,7 +768,7 @@ loop:
 			n++
 		}
 		k := 0
-		if n > 1 {
+		if n > 1 && !s.quiet {
 			k = s.ch.Choose("sched", n, 1)
 		}
 		if k == len(enabled) {
